@@ -212,7 +212,9 @@ class ImplFn(Fn):
     collection of one-character strings); an index expression `s[i]` is NOT totalised: an expression containing one has
     Lean type `Option _` (`none` = IndexError raised while evaluating it, CPython's left-to-right, short-circuit order)
     and an `if` over such a test propagates `Py.Ret.indexError`; `raise ParseException(instring, <loc>, ...)` and
-    `return <loc>, <tokens>` are the only exits."""
+    `return <loc>, <tokens>` are the only exits.  Locals may be re-assigned (`loc += 1`, `start = loc`,
+    `name: T = e`, `m = min(a, b)` on ints: shadowing `let`s); the only loop is the character scan
+    `while v < B and s[v] (not) in CS: v += 1` -> `Py.scanWhile` (see `scan_loop`; any other `while` is refused)."""
 
     def __init__(self, fdef, where, attrs, name):
         super().__init__(fdef, where)
@@ -320,6 +322,13 @@ class ImplFn(Fn):
                 self.bad(n, "startswith prefix")
             lo = self.opt(n.args[1] if len(n.args) > 1 else None)
             return f"(Py.startswith {s} {pfx} {lo})", "bool", False
+        if isinstance(n, ast.Call) and isinstance(n.func, ast.Name) and n.func.id == "min":
+            if len(n.args) != 2 or n.keywords:
+                self.bad(n, "min with other than two positional arguments")
+            (a, ta, ra), (b, tb, rb) = self.rexpr(n.args[0]), self.rexpr(n.args[1])
+            if ta != "int" or tb != "int" or ra or rb:
+                self.bad(n, "min of non-int")
+            return f"(min {a} {b})", "int", False
         if isinstance(n, (ast.BinOp, ast.UnaryOp, ast.IfExp)):
             subs = [x for x in ast.iter_child_nodes(n) if isinstance(x, ast.expr)]
             if any(self.rexpr(x)[2] for x in subs):
@@ -348,6 +357,22 @@ class ImplFn(Fn):
                 self.bad(st, "assignment of an index expression")
             self.env[st.targets[0].id] = t
             return f"{pad}let {st.targets[0].id} := {e}\n" + self.block(rest, ret_ty, ind)
+        if isinstance(st, ast.AnnAssign) and isinstance(st.target, ast.Name) and st.value is not None and st.simple:
+            # `name: <annotation> = value` — the annotation has no run-time effect on a local
+            e, t, r = self.rexpr(st.value)
+            if r:
+                self.bad(st, "assignment of an index expression")
+            self.env[st.target.id] = t
+            return f"{pad}let {st.target.id} := {e}\n" + self.block(rest, ret_ty, ind)
+        if isinstance(st, ast.AugAssign) and isinstance(st.target, ast.Name) and isinstance(st.op, (ast.Add, ast.Sub)):
+            # `x += e` on a local int: a shadowing `let`
+            x = st.target.id
+            e, t, r = self.rexpr(st.value)
+            if self.env.get(x) != "int" or t != "int" or r:
+                self.bad(st, "augmented assignment other than int += / -= int")
+            return f"{pad}let {x} := ({x} {'+' if isinstance(st.op, ast.Add) else '-'} {e})\n" + self.block(rest, ret_ty, ind)
+        if isinstance(st, ast.While):
+            return self.scan_loop(st, rest, ret_ty, ind)
         if isinstance(st, ast.Return) and isinstance(st.value, ast.Tuple) and len(st.value.elts) == 2:
             e, t, r = self.rexpr(st.value.elts[0])
             if t != "int" or r:
@@ -377,6 +402,42 @@ class ImplFn(Fn):
             return f"{pad}if {c} then\n{a}{pad}else\n{b}"
         self.bad(st, "statement")
 
+    def scan_loop(self, st, rest, ret_ty, ind):
+        """exactly `while <v> < <int expr> and instring[<v>] (not) in <chars expr>: <v> += 1` (no else) ->
+        `Py.scanWhile instring <chars> <neg> <v> <bound>`; the loop variable is rebound to the result, `none`
+        (IndexError raised by `instring[<v>]`) is propagated.  Any other loop is Untranslatable."""
+        pad = "  " * ind
+        c = st.test
+        if st.orelse or not (isinstance(c, ast.BoolOp) and isinstance(c.op, ast.And) and len(c.values) == 2):
+            self.bad(st, "while loop outside the supported shape")
+        lt, mem = c.values
+        if not (isinstance(lt, ast.Compare) and len(lt.ops) == 1 and isinstance(lt.ops[0], ast.Lt)
+                and isinstance(lt.left, ast.Name)):
+            self.bad(st, "while: first conjunct is not `<var> < <bound>`")
+        v = lt.left.id
+        if self.env.get(v) != "int":
+            self.bad(st, "while: loop variable is not a local int")
+        if not (isinstance(mem, ast.Compare) and len(mem.ops) == 1 and isinstance(mem.ops[0], (ast.In, ast.NotIn))
+                and isinstance(mem.left, ast.Subscript) and not isinstance(mem.left.slice, ast.Slice)
+                and isinstance(mem.left.value, ast.Name) and self.env.get(mem.left.value.id) == "str"
+                and isinstance(mem.left.slice, ast.Name) and mem.left.slice.id == v):
+            self.bad(st, "while: second conjunct is not `<str>[<var>] (not) in <chars>`")
+        if not (len(st.body) == 1 and isinstance(st.body[0], ast.AugAssign) and isinstance(st.body[0].op, ast.Add)
+                and isinstance(st.body[0].target, ast.Name) and st.body[0].target.id == v
+                and isinstance(st.body[0].value, ast.Constant) and type(st.body[0].value.value) is int
+                and st.body[0].value.value == 1):
+            self.bad(st, "while: body is not `<var> += 1`")
+        b, tb, rb = self.rexpr(lt.comparators[0])
+        cs, tc, rc = self.rexpr(mem.comparators[0])
+        if tb != "int" or rb or tc != "chars" or rc:
+            self.bad(st, "while: bound / character set")
+        if any(isinstance(x, ast.Name) and x.id == v for x in ast.walk(lt.comparators[0])) or \
+                any(isinstance(x, ast.Name) and x.id == v for x in ast.walk(mem.comparators[0])):
+            self.bad(st, "while: bound / character set depends on the loop variable")
+        neg = "true" if isinstance(mem.ops[0], ast.NotIn) else "false"
+        return (f"{pad}match Py.scanWhile {mem.left.value.id} {cs} {neg} {v} {b} with\n{pad}| none => Py.Ret.indexError\n"
+                f"{pad}| some {v} =>\n" + self.block(rest, ret_ty, ind + 1))
+
     def lean(self):
         f = self.f
         names = [a.arg for a in f.args.args]
@@ -384,7 +445,7 @@ class ImplFn(Fn):
             self.bad(f, "parseImpl signature")
         self.env = {"instring": "str", "loc": "int"}
         body = self.block(f.body, "ret", 1)
-        lty = {"str": "List Char", "int": "Int", "chars": "List Char"}
+        lty = {"str": "List Char", "int": "Int", "chars": "List Char", "bool": "Bool"}
         params = "".join(f"(self_{a} : {lty[self.attrs[a]]}) " for a in sorted(self.used))
         return f"def {self.name} {params}(instring : List Char) (loc : Int) : Py.Ret :=\n{body}"
 
@@ -419,6 +480,15 @@ def leaf_classes(pp):
     return [pp.Empty, pp.NoMatch, pp.Literal, core._SingleCharLiteral, pp.StringEnd, pp.LineEnd, pp.WordStart, pp.WordEnd]
 
 
+LOOP_ATTRS = {"notCharsSet": "chars", "initChars": "chars", "bodyChars": "chars", "minLen": "int", "maxLen": "int",
+              "maxSpecified": "bool", "asKeyword": "bool", "errmsg": "str"}
+
+
+def loop_classes(pp):
+    """leaf classes whose own `parseImpl` contains the character-scanning `while` loop"""
+    return [pp.CharsNotIn, pp.Word]
+
+
 def translate(objs, namespace, origin):
     """objs: list of live function objects (lru_cache wrappers are unwrapped).  Returns the text of a Lean file."""
     out = [
@@ -450,7 +520,9 @@ if __name__ == "__main__":
     pp = common.import_pyparsing()
     from pyparsing import util
 
-    if "--leaves" in sys.argv:
+    if "--loops" in sys.argv:
+        print(translate_impls(loop_classes(pp), LOOP_ATTRS, "PP.Gen.LoopSrc", "pyparsing/core.py"))
+    elif "--leaves" in sys.argv:
         print(translate_impls(leaf_classes(pp), LEAF_ATTRS, "PP.Gen.LeafSrc", "pyparsing/core.py"))
     else:
         print(translate([util.col, util.lineno, util.line], "PP.Gen.UtilSrc", "pyparsing/util.py"))
